@@ -187,7 +187,7 @@ class PrefixCopyLoop:
 
     def applies(self, it, env, iterable):
         self.src = iterable
-        return isinstance(iterable, (CM.AbsLabelSeq, CM.LabelList, CM.FilterView)) and iterable.concrete_len(it) is None
+        return (isinstance(iterable, (CM.AbsLabelSeq, CM.LabelList)) or getattr(iterable, 'is_label_list_view', False)) and iterable.concrete_len(it) is None
 
     def _setup(self, it, env):
         if self.pc is not None:
